@@ -78,6 +78,7 @@ def luaFind (fuel : Nat) (s : Subject) (ptn : Array UInt8) (init : Int) (plain :
     | .ok P =>
       let r := matchFromStart P s fuel si 0
       if r.outOfFuel then .outOfFuel else
+      if let some w := r.escapedPanic then .panic w else
       match r.captures with
       | none => .vals [.nil]
       | some [] => .vals [.nil]
@@ -86,14 +87,17 @@ def luaFind (fuel : Nat) (s : Subject) (ptn : Array UInt8) (init : Int) (plain :
         | .error w => .panic w
         | .ok extra => .vals ([.int (first.start + 1), .int first.stop] ++ extra)
 
-/-- `match` of matching.go (no `si > len(s)` guard) -/
+/-- `match` of matching.go (with the same `si > len(s)` guard as `find`, before the pattern is compiled) -/
 def luaMatch (fuel : Nat) (s : Subject) (ptn : Array UInt8) (init : Int) : LRes :=
   let si := startIndex s.size init
+  if si > s.size then .vals [.nil] else
   match PatBuild.build ptn with
   | .error e => .error e
   | .ok P =>
     let r := matchFromStart P s fuel si 0
-    if r.outOfFuel then .outOfFuel else ofExcept (pushCaptures s r.captures)
+    if r.outOfFuel then .outOfFuel else
+    if let some w := r.escapedPanic then .panic w else
+    ofExcept (pushCaptures s r.captures)
 
 /-! ### the stepping loops over an abstract matcher -/
 
@@ -163,14 +167,17 @@ inductive ReplOut where
   | err
   | panic (w : PanicSite)
 
+/-- `cStrings[i]`: a captured string as is, a position through `strconv.Itoa` -/
+def valStr : LVal → List UInt8
+  | .str b => b
+  | .int n => itoa n
+  | .nil => []
+
 def replString (s : Subject) (repl : List UInt8) (caps : List Capture) : ReplOut :=
   match caps.mapM (captureValue s) with
   | .error w => .panic w
   | .ok vals =>
-    let strs : List (List UInt8) := vals.map fun v => match v with
-      | .str b => b
-      | .int n => itoa n
-      | .nil => []
+    let strs : List (List UInt8) := vals.map valStr
     let (strs, maxIndex) := if caps.length = 1 then ([strs.getD 0 [], strs.getD 0 []], 1) else (strs, caps.length - 1)
     match expandRepl strs maxIndex repl with
     | .ok b => .ok b
@@ -200,8 +207,9 @@ def advance (st : GsubState) (start stop : Int) : GsubState :=
   { st with allowEmpty := decide (start ≥ stop), si := if start ≥ stop then start + 1 else stop,
             matchCount := st.matchCount + 1 }
 
-/-- the main `for ; matchCount != n; matchCount++` loop of `gsub` (`n = none` for a negative limit) -/
-def gsubLoop (s : Subject) (matcher : Matcher) (repl : List Capture → ReplOut) (n : Option Nat) :
+/-- the main `for ; matchCount != n; matchCount++` loop of `gsub` (`n = none` for a negative limit).
+    `anchored`: the pattern starts with `^`; then the loop body runs once (`matchCount++; break`). -/
+def gsubLoop (s : Subject) (matcher : Matcher) (repl : List Capture → ReplOut) (n : Option Nat) (anchored : Bool) :
     Nat → GsubState → GsubOut
   | 0, _ => .outOfFuel
   | fuel + 1, st =>
@@ -219,15 +227,17 @@ def gsubLoop (s : Subject) (matcher : Matcher) (repl : List Capture → ReplOut)
           match sliceE s st.sj gc.start with
           | .error w => .panic w
           | .ok pre =>
-            gsubLoop s matcher repl n fuel
-              (advance { st with out := st.out ++ pre ++ sub, sj := gc.stop, wrote := true,
-                                 accepted := (gc.start, gc.stop) :: st.accepted } gc.start gc.stop)
-      else gsubLoop s matcher repl n fuel (advance st gc.start gc.stop)
+            let st' := advance { st with out := st.out ++ pre ++ sub, sj := gc.stop, wrote := true,
+                                         accepted := (gc.start, gc.stop) :: st.accepted } gc.start gc.stop
+            if anchored then .done st' else gsubLoop s matcher repl n anchored fuel st'
+      else
+        let st' := advance st gc.start gc.stop
+        if anchored then .done st' else gsubLoop s matcher repl n anchored fuel st'
 
-/-- the loop of `gsub` run on the real matcher -/
+/-- the loop of `gsub` run on the real matcher (`pat.MatchFromStart`, which honours `^`) -/
 def gsubRun (fuel : Nat) (s : Subject) (P : Pattern) (repl : List UInt8) (n : Option Nat) : GsubOut :=
-  let matcher : Matcher := fun si => (matchGo P s fuel si 0).captures
-  gsubLoop s matcher (replString s repl) n (s.size + 3) {}
+  let matcher : Matcher := fun si => (matchFromStart P s fuel si 0).captures
+  gsubLoop s matcher (replString s repl) n P.startAnchor (s.size + 3) {}
 
 /-- `gsub` of matching.go for a string replacement -/
 def luaGsub (fuel : Nat) (s : Subject) (ptn : Array UInt8) (repl : List UInt8) (n : Option Nat) : LRes :=
@@ -239,8 +249,8 @@ def luaGsub (fuel : Nat) (s : Subject) (ptn : Array UInt8) (repl : List UInt8) (
     | .replErr => .replError
     | .panic w => .panic w
     | .done st =>
-      -- `sb.Len() == 0` → the input string; `sj < len(s)` → append the tail
-      if st.out.isEmpty then .vals [.str s.toList, .int st.matchCount]
+      -- `!subst` → the input string; `sj < len(s)` → append the tail
+      if !st.wrote then .vals [.str s.toList, .int st.matchCount]
       else if st.sj < s.size then
         match sliceE s st.sj s.size with
         | .error w => .panic w
